@@ -81,3 +81,49 @@ def install(reg):  # noqa: F811
     reg.axioms.append(("sumnn", ax_sumnn))
     reg.axioms.append(("countnn", ax_countnn))
     reg.auto_inline |= {"tracklib.core.utils:listify", "tracklib.core.utils:isnan"}
+
+
+# ---------------------------------------------------------------- library of valid non-linear facts
+# Each schema is a theorem of real arithmetic.  `use <schema>(args)` in a hint list adds the instance
+# as a hypothesis without a per-instance proof; the schema itself is proved once per run (obligation
+# lib/<name>, see LIB_SCHEMAS), so nothing here is an unproved assumption.
+def _r(v):
+    return to_float(v)[1]
+
+
+def lib_mul_nonneg(ex, st, a, b):
+    a, b = _r(a), _r(b)
+    return vbool(z3.And(z3.Implies(z3.And(a >= 0, b >= 0), a * b >= 0), z3.Implies(z3.And(a <= 0, b >= 0), a * b <= 0),
+                        z3.Implies(z3.And(a > 0, b > 0), a * b > 0), z3.Implies(z3.And(a < 0, b > 0), a * b < 0)))
+
+
+def lib_mul_mono(ex, st, a, b, c):
+    a, b, c = _r(a), _r(b), _r(c)
+    return vbool(z3.And(z3.Implies(z3.And(a <= b, c >= 0), a * c <= b * c), z3.Implies(z3.And(a < b, c > 0), a * c < b * c)))
+
+
+def lib_sq_nonneg(ex, st, a):
+    a = _r(a)
+    return vbool(a * a >= 0)
+
+
+def lib_distrib(ex, st, a, b, c):
+    a, b, c = _r(a), _r(b), _r(c)
+    return vbool(z3.And((a - b) * c == a * c - b * c, (a + b) * c == a * c + b * c))
+
+
+def lib_schemas():
+    a, b, c = z3.Reals("a!l b!l c!l")
+    mk = lambda f, *xs: truth(f(None, None, *[vfloat(x) for x in xs]))
+    return [("mul_nonneg", [], z3.ForAll([a, b], mk(lib_mul_nonneg, a, b))),
+            ("mul_mono", [], z3.ForAll([a, b, c], mk(lib_mul_mono, a, b, c))),
+            ("sq_nonneg", [], z3.ForAll([a], mk(lib_sq_nonneg, a))),
+            ("distrib", [], z3.ForAll([a, b, c], mk(lib_distrib, a, b, c)))]
+
+
+_install1 = install
+
+
+def install(reg):  # noqa: F811
+    _install1(reg)
+    reg.specfuncs.update(mul_nonneg=lib_mul_nonneg, mul_mono=lib_mul_mono, sq_nonneg=lib_sq_nonneg, distrib=lib_distrib)
